@@ -147,7 +147,7 @@ def main():
         reports.append(rep)
     for rep in reports:
         if rep.get("dependency_of"):
-            for u in rep["units"]:
+            for u in rep["units"] + rep["undecided"]:
                 _unit_owner[u["unit"]] = rep["dependency_of"]
     results = [r for rep in reports for r in rep["results"]]
     undec_units = [u for rep in reports for u in rep["undecided"]]
